@@ -759,6 +759,9 @@ func emit(e event) {
 	}
 	out.Write(b)
 	out.WriteByte('\n')
+	if e["ev"] == "Reset" {
+		out.Flush() // if the process dies in this case (a runtime fatal error in a library call), the marker must be on disk
+	}
 	if aborted != "" && (e["ev"] == "Read" || e["ev"] == "Bulk") {
 		out.WriteString(`{"ev":"Aborted","detail":"driver stopped after a runaway call"}` + "\n")
 		out.Flush()
@@ -1437,6 +1440,53 @@ func countAdds(c jobCase) (written int) {
 type bulkSpec struct {
 	N       int   `json:"n"`
 	Batches []int `json:"batches"`
+	// Trunc: afterwards every strict prefix of the (large) file is handed to the reader; the outcome is summarised in one event
+	Trunc bool `json:"trunc,omitempty"`
+}
+
+// truncSweep: every strict prefix of file must be rejected (constructor error or Error() != nil), without panic.
+func truncSweep(file []byte, poff int) {
+	res := event{"ev": "TruncSweep", "n": len(file), "naccepted": 0, "npanicked": 0, "accepted": []int{}, "panicked": []int{}, "detail": ""}
+	acc, pan := []int{}, []int{}
+	for l := 0; l < len(file); l++ {
+		var r *ParquetReader
+		var err error
+		p := protect(func() {
+			r, err = NewParquetReader(&source{data: file[:l]})
+			if err != nil {
+				return
+			}
+			n := 0
+			for r.Next() {
+				rec := new(Rec)
+				r.Scan(rec)
+				if n++; n > 1<<22 {
+					break
+				}
+			}
+			err = r.Error()
+		})
+		switch {
+		case p != "":
+			if len(pan) < 8 {
+				pan = append(pan, l)
+			}
+			if res["detail"] == "" {
+				if len(p) > 300 {
+					p = p[:300]
+				}
+				res["detail"] = p
+			}
+			res["npanicked"] = res["npanicked"].(int) + 1
+		case err == nil:
+			if len(acc) < 8 {
+				acc = append(acc, l)
+			}
+			res["naccepted"] = res["naccepted"].(int) + 1
+		}
+	}
+	res["accepted"], res["panicked"] = acc, pan
+	emit(res)
 }
 
 func bulkAbstract(kids []node, i int, salt int) []interface{} {
@@ -1531,6 +1581,9 @@ func runBulk(c jobCase) {
 	})
 	res["rerr"], res["pan"] = errStr(err), pan
 	emit(res)
+	if c.Bulk.Trunc && aborted == "" {
+		truncSweep(snk.buf, c.Poff)
+	}
 }
 
 func runCase(c jobCase) {
